@@ -176,6 +176,8 @@ ASSUMPTIONS = [
     "hosts.pipe: no waits, lifetimes >= 120 s, if-modified-since 60 s away from the run's start: nothing in a run depends on the clock",
     "concurrency: wire_concurrent_clients quantifies over interleavings of whole requests (HTTP/1 connections are served one request at a time; "
     "requests to different hosts share no state in the model); finer-grained races inside one host are C05's subject",
+    "the replies compared in hosts.wire / hosts.pipe contain the invocation number of the handler that produced the body: a change of the "
+    "response-cache policy (C03/C04) shows up here, too, as a correspondence difference",
     "the limiter is disabled on every host (Host::limiter of the first host is also the collection's pre-host limiter: shared state that is not "
     "part of this property)",
 ]
